@@ -1,3 +1,4 @@
 import BycycleModel.Basic
 import BycycleModel.Runs
 import BycycleModel.Wire
+import BycycleModel.Detect
